@@ -884,6 +884,9 @@ class PendingFunctionDef(_PendingCompoundStmt[FunctionDef]):
 
         # copy args and filter annotations
         original_args = node.args
+        _positional = [*original_args.posonlyargs, *original_args.args]
+        if _positional:
+            self.internal_nsp.first_positional_parameter = _positional[0].arg
         self.converted_args = converted_args = arguments(
             posonlyargs=[],
             args=[],
